@@ -62,16 +62,70 @@ func named(tok int, id int, wg *sync.WaitGroup) {
 	hook.Exit(tok)
 }
 
+// handlers: closures that call recover(), created by goroutines that exit; later goroutines
+// (which may reuse the identity of the creator) run them as deferred functions of a panic
+var handlers [64]func()
+var hmu sync.Mutex
+
+func register(tok int, id int, wg *sync.WaitGroup) {
+	hook.Start(tok)
+	me := id
+	h := func() {
+		r := recover()
+		hook.Ev("handler", me, r)
+	}
+	hook.Lock(&hmu)
+	handlers[id%64] = h
+	hook.Unlock(&hmu)
+	wg.Done()
+	hook.Exit(tok)
+}
+
+func usePanic(h func(), id int) (escaped bool) {
+	defer func() {
+		if r := recover(); r != nil {
+			escaped = true
+		}
+	}()
+	func() {
+		defer h()
+		panic(id)
+	}()
+	return false
+}
+
+func useHandler(tok int, id int, h func(), wg *sync.WaitGroup) {
+	hook.Start(tok)
+	hook.Ev("use-handler", id, usePanic(h, id), work(id))
+	wg.Done()
+	hook.Exit(tok)
+}
+
 func Main() {
 	rounds := 1 + hook.Choose(4)
 	id := 0
+	var regOld, regNew []int // ids of the register jobs of earlier rounds / of this round
 	for r := 0; r < rounds; r++ {
 		var wg sync.WaitGroup
 		k := 1 + hook.Choose(2)
 		for i := 0; i < k; i++ {
 			id++
 			wg.Add(1)
-			switch hook.Choose(3) {
+			switch hook.Choose(5) {
+			case 3:
+				regNew = append(regNew, id)
+				go register(hook.Spawn(), id, &wg)
+			case 4:
+				// only handlers of earlier rounds: their creators have exited
+				if n := len(regOld); n > 0 {
+					hook.Lock(&hmu)
+					h := handlers[regOld[hook.Choose(n)]%64]
+					hook.Unlock(&hmu)
+					go useHandler(hook.Spawn(), id, h, &wg)
+				} else {
+					regNew = append(regNew, id)
+					go register(hook.Spawn(), id, &wg)
+				}
 			case 0:
 				go named(hook.Spawn(), id, &wg)
 			case 1:
@@ -91,6 +145,8 @@ func Main() {
 		}
 		hook.Ev("main", r, work(100+r))
 		wg.Wait()
+		regOld = append(regOld, regNew...)
+		regNew = nil
 	}
 	hook.Ev("end", id)
 }
